@@ -524,3 +524,150 @@ def _parse_fold_product(cur, t, fname, sc):
         _fail(f"{fname}: rebuild literal does not list every field of {t}")
     e["rebuild"] = [reb[f] for f in fields]
     return e
+
+
+# ------------------------------------------------------------------ gen/visitor.rs
+
+def parse_visitor(src, sc):
+    text = canon(src)
+    cur = Cursor(text, "gen/visitor.rs")
+    cur.take(C("# [ allow ( unused_variables ) ] pub trait Visitor < R = crate :: text_size :: TextRange > {"),
+             "trait Visitor header")
+    sig = C("fn «(?P<f>" + ID + ")» ( & mut self , node : «(?P<t>" + ID + ")»«(?P<g> < R >)?» ) {")
+    methods = []       # (name, type, body-kind, payload)
+    while not cur.peek(re.escape("}") + r"\s*$"):
+        m = cur.take(sig, "method signature `fn name(&mut self, node: T<R>) {`")
+        name, t = m.group("f"), m.group("t")
+        if cur.peek(re.escape("}")):
+            cur.take(re.escape("}"), "}")
+            methods.append((name, t, "empty", None))
+            continue
+        d = cur.peek(C("self . «(?P<g>generic_" + ID + ")» ( node ) }"))
+        if d:
+            cur.take(C("self . «(?P<g>generic_" + ID + ")» ( node ) }"), "delegation")
+            methods.append((name, t, "delegate", d.group("g")))
+            continue
+        if cur.peek(C("match node {")):
+            cur.take(C("match node {"), "match")
+            arms = []
+            while not cur.peek(re.escape("}")):
+                a = cur.take(C("«(?P<s>" + ID + ")» :: «(?P<v>" + ID + ")» ( data ) => self . «(?P<m>" + ID + ")» ( data )«(?: ,)?»"),
+                             f"dispatch arm in {name}")
+                arms.append((a.group("s"), a.group("v"), a.group("m")))
+            cur.take(C("} }"), f"end of {name}")
+            methods.append((name, t, "match", arms))
+            continue
+        blocks = []
+        while not cur.peek(re.escape("}")):
+            b = cur.peek(C("{ let value = node . «(?P<f>" + ID + ")» ; self . «(?P<m>" + ID + ")» ( «(?P<star>\\* )?»value ) ; }"))
+            if b:
+                cur.take(C("{ let value = node . «(?P<f>" + ID + ")» ; self . «(?P<m>" + ID + ")» ( «(?P<star>\\* )?»value ) ; }"), "direct block")
+                blocks.append(("direct", b.group("f"), b.group("m"), bool(b.group("star"))))
+                continue
+            b = cur.peek(C("for value in node . «(?P<f>" + ID + ")»«(?P<fl> \\. into_iter \\( \\) \\. flatten \\( \\))?» { self . «(?P<m>" + ID + ")» ( value ) ; }"))
+            if b:
+                cur.take(C("for value in node . «(?P<f>" + ID + ")»«(?P<fl> \\. into_iter \\( \\) \\. flatten \\( \\))?» { self . «(?P<m>" + ID + ")» ( value ) ; }"), "for block")
+                blocks.append(("flatten" if b.group("fl") else "for", b.group("f"), b.group("m"), False))
+                continue
+            b = cur.take(C("if let Some ( value ) = node . «(?P<f>" + ID + ")» { self . «(?P<m>" + ID + ")» ( «(?P<star>\\* )?»value ) ; }"),
+                         f"field block (direct / for / if let) in {name}")
+            blocks.append(("opt", b.group("f"), b.group("m"), bool(b.group("star"))))
+        cur.take(re.escape("}"), f"end of {name}")
+        methods.append((name, t, "blocks", blocks))
+    cur.take(re.escape("}"), "end of trait Visitor")
+    if not cur.done():
+        _fail("gen/visitor.rs: text after trait Visitor")
+
+    by_name = {}
+    for name, t, kind, payload in methods:
+        if name in by_name:
+            _fail(f"gen/visitor.rs: method {name} defined twice")
+        by_name[name] = (t, kind, payload)
+    # visit method per type
+    visit_of = {}
+    for name, (t, kind, payload) in by_name.items():
+        if name.startswith("generic_visit_"):
+            continue
+        if not name.startswith("visit_"):
+            _fail(f"gen/visitor.rs: unexpected method {name}")
+        if t in visit_of:
+            _fail(f"gen/visitor.rs: two visit methods take {t}")
+        visit_of[t] = name
+    body_of = {}      # type -> (kind, payload) of the code run by the visit method
+    for t, name in visit_of.items():
+        _, kind, payload = by_name[name]
+        if kind == "empty":
+            if "generic_" + name in by_name:
+                _fail(f"gen/visitor.rs: {name} is empty although generic_{name} exists")
+            body_of[t] = ("blocks", [])
+        elif kind == "delegate":
+            if payload != "generic_" + name:
+                _fail(f"gen/visitor.rs: {name} delegates to {payload}")
+            gt, gk, gp = by_name.get(payload, (None, None, None))
+            if gt != t or gk not in ("empty", "match", "blocks"):
+                _fail(f"gen/visitor.rs: {payload} missing or of another type/shape")
+            body_of[t] = ("blocks", []) if gk == "empty" else (gk, gp)
+        else:
+            _fail(f"gen/visitor.rs: {name} neither delegates to generic_{name} nor is empty")
+    for name in by_name:
+        if name.startswith("generic_") and name[len("generic_"):] not in by_name:
+            _fail(f"gen/visitor.rs: {name} without {name[len('generic_'):]}")
+    entries = {}       # kind name -> [local field index]   (kinds with a visit method)
+    dispatch = {}      # sum name -> [(variant struct, target struct)]
+    for t, (kind, payload) in body_of.items():
+        if t in sc.simple:
+            if kind != "blocks" or payload:
+                _fail(f"gen/visitor.rs: visit of simple enum {t} has a body")
+        elif t in sc.sum_variants:
+            if kind != "match":
+                _fail(f"gen/visitor.rs: generic visit of sum type {t} is not a match")
+            tab = []
+            for s, v, mname in payload:
+                if s != t or (v, t + v) not in sc.sum_variants[t]:
+                    _fail(f"gen/visitor.rs: arm {s}::{v} in visit of {t}")
+                tgt = [tt for tt, nn in visit_of.items() if nn == mname]
+                if not tgt or tgt[0] not in sc.kind_id:
+                    _fail(f"gen/visitor.rs: arm {s}::{v} calls unknown method {mname}")
+                if tgt[0] != t + v:
+                    _fail(f"gen/visitor.rs: arm {s}::{v} calls {mname} which takes {tgt[0]} (would not type-check)")
+                tab.append((t + v, tgt[0]))
+            if sorted(x for x, _ in tab) != sorted(st for _, st in sc.sum_variants[t]):
+                _fail(f"gen/visitor.rs: visit of {t} does not cover every variant exactly once")
+            dispatch[t] = tab
+        elif t in sc.kind_id:
+            if kind != "blocks":
+                _fail(f"gen/visitor.rs: generic visit of product {t} is a match")
+            ftypes = dict(sc.structs[t]["fields"])
+            fidx = {f: i for i, (f, _) in enumerate(sc.structs[t]["fields"])}
+            calls = []
+            for mode, f, mname, star in payload:
+                if f not in ftypes:
+                    _fail(f"gen/visitor.rs: visit of {t} reads unknown field {f}")
+                ft = ftypes[f]
+                want = {"direct": None, "for": "vec", "flatten": "vec", "opt": "opt"}[mode]
+                inner = ft
+                if want:
+                    if inner[0] != want:
+                        _fail(f"gen/visitor.rs: {t}.{f}: `{mode}` access on type {ft}")
+                    inner = inner[1]
+                if mode == "flatten":
+                    if inner[0] != "opt":
+                        _fail(f"gen/visitor.rs: {t}.{f}: flatten on {ft}")
+                    inner = inner[1]
+                boxed = inner[0] == "box"
+                if boxed:
+                    inner = inner[1]
+                if inner[0] != "node":
+                    _fail(f"gen/visitor.rs: {t}.{f}: visited field of type {ft} is not a node field")
+                if boxed != star:
+                    _fail(f"gen/visitor.rs: {t}.{f}: deref does not match the field type {ft}")
+                if visit_of.get(inner[1]) != mname:
+                    _fail(f"gen/visitor.rs: {t}.{f}: calls {mname}, the visit method for {inner[1]} is {visit_of.get(inner[1])}")
+                calls.append(fidx[f])
+            entries[t] = calls
+        elif t in sc.orphans:
+            _fail(f"gen/visitor.rs: visit method for orphan type {t}")
+        else:
+            _fail(f"gen/visitor.rs: visit method for unknown type {t}")
+    # every variant of a visited sum must have its own visit method (checked above through dispatch)
+    return entries, dispatch, visit_of
